@@ -156,8 +156,33 @@ inductive RV where
 
 abbrev Registry := List ((PyStr × Nat) × Desc)
 
+def strOf : RV → Option PyStr
+  | .str s => some s
+  | .bytes b => some (decodeSE b)       -- to_str(bytes)
+  | _ => none
+
 def lookup (reg : Registry) (name : PyStr) (hash : Nat) : Option Desc :=
   (reg.find? (fun e => e.1.1 == name && e.1.2 == hash)).map (·.2)
+
+/-- old, unversioned identifiers are the bare name: the descriptor registered last under that name -/
+def lookupName (reg : Registry) (name : PyStr) : Option Desc :=
+  (reg.find? (fun e => e.1.1 == name)).map (·.2)
+
+/-- `self.descriptors.get(identifier_to_str(identifier))` for both identifier shapes -/
+def lookupIdent (reg : Registry) : RV → Except Err Desc
+  | .tuple [nm, .int h] =>
+    match strOf nm with
+    | some name => match lookup reg name h.toNat with
+      | some d => .ok d
+      | none => .error .noDescriptor
+    | none => .error .badShape
+  | .str name => match lookupName reg name with
+    | some d => .ok d
+    | none => .error .noDescriptor
+  | .bytes b => match lookupName reg (decodeSE b) with
+    | some d => .ok d
+    | none => .error .noDescriptor
+  | _ => .error .badShape
 
 /-- compatibility rule of `unpack_obj`: more values than fields + reserved ⇒ strip extras, keep the version -/
 def fitValues (d : Desc) (vals : List RV) : List RV :=
@@ -167,11 +192,6 @@ def fitValues (d : Desc) (vals : List RV) : List RV :=
     | some v => vals.take (expected - 1) ++ [v]
     | none => vals
   else vals
-
-def strOf : RV → Option PyStr
-  | .str s => some s
-  | .bytes b => some (decodeSE b)       -- to_str(bytes)
-  | _ => none
 
 def fieldsOf (xs : List RV) : Option (List (PyStr × PyStr)) :=
   xs.mapM fun x => match x with
@@ -195,13 +215,10 @@ def unpackEnvelope (reg : Registry) (sub : RV) (value : RV) : Except Err RV :=
       | _ => .error .badShape
     else if s = tRecord then
       match value with
-      | .tuple [.tuple [nm, .int h], .tuple vals] =>
-        match strOf nm with
-        | some name =>
-          match lookup reg name h.toNat with
-          | some d => .ok (.record d (fitValues d vals))
-          | none => .error .noDescriptor
-        | none => .error .badShape
+      | .tuple [ident, .tuple vals] =>
+        match lookupIdent reg ident with
+        | .ok d => .ok (.record d (fitValues d vals))
+        | .error e => .error e
       | _ => .error .badShape
     else if s = tGrouped then
       match value with
@@ -209,13 +226,10 @@ def unpackEnvelope (reg : Registry) (sub : RV) (value : RV) : Except Err RV :=
         match strOf nm with
         | some name =>
           let rs := members.mapM fun m => match m with
-            | .tuple [.tuple [n2, .int h], .tuple vals] =>
-              match strOf n2 with
-              | some name2 =>
-                match lookup reg name2 h.toNat with
-                | some d => Except.ok (RV.record d vals)
-                | none => Except.error Err.noDescriptor
-              | none => Except.error Err.badShape
+            | .tuple [ident, .tuple vals] =>
+              match lookupIdent reg ident with
+              | .ok d => Except.ok (RV.record d vals)
+              | .error e => Except.error e
             | _ => Except.error Err.badShape
           match rs with
           | .ok rs => .ok (.grouped name rs)
